@@ -104,6 +104,8 @@ func runAgent(in []int64) ([]int64, []int64) {
 		switch it.Kind {
 		case itBind:
 			return sc.AddBindTask(ctxs[i])
+		case itRemoveNode:
+			recovered(func() { _ = sc.RemoveNode(sched.NodeName(it.Task)) })
 		case itNode:
 			o := nodeObject(it.Node)
 			recovered(func() { _ = sc.AddOrUpdateNode(o) })
